@@ -63,7 +63,7 @@ def elem(tags: set) -> set:
         elif k == "LL":
             out.add(("L", t[1], t[2], False, t[3]))
         elif k == "L":
-            out.add(("P", t[1], t[2], t[3]))
+            out.add(("P", t[1], t[2], t[3], t[4]))
         elif k == "IT":
             out.add(("I", t[1], t[2], t[3]))
         elif k == "DS":
@@ -71,7 +71,7 @@ def elem(tags: set) -> set:
         elif k == "GI":
             out.add(("GI1", t[1], t[2]))
         elif k == "P":
-            out.add(("E", t[1], t[2], t[3]))
+            out.add(("E", t[1], t[2], t[3], t[4]))
         elif k == "K":
             out.add(("KE", t[1]))
         elif k == "I":
@@ -99,9 +99,9 @@ def lookup_in(tags: set) -> set:
         elif t[0] == "G":
             out.add(("D", t[1], t[2], True))
         elif t[0] == "L":
-            out.add(("P", t[1], t[2], t[3]))
+            out.add(("P", t[1], t[2], t[3], t[4]))
         elif t[0] == "P":
-            out.add(("E", t[1], t[2], t[3]))
+            out.add(("E", t[1], t[2], t[3], t[4]))
         elif t[0] == "K":
             out.add(("KE", t[1]))
         elif t[0] == "I":
@@ -165,7 +165,7 @@ class Shapes:
                         if i == 1:
                             sub.add(("D", t[1], t[2], True))
                     elif t[0] == "P" and n == 2:
-                        sub.add(("E", t[1], t[2], t[3]))
+                        sub.add(("E", t[1], t[2], t[3], t[4]))
                     elif t[0] == "K" and n == 2:
                         sub.add(("KE", t[1]))
                 self._bind(el, sub)
@@ -291,7 +291,7 @@ class Shapes:
                 clean = t[2]
                 if clean is not True and elt is not None:
                     clean = self._filtered(event, elt, t[2])
-                out.add(("L", t[1], clean, bool(multi or t[3]), False))
+                out.add(("L", t[1], clean, bool(multi or t[3]), t[4]))
             elif k == "K":
                 out.add(("KS", t[1]))
             elif k == "L":
@@ -308,7 +308,7 @@ class Shapes:
         for t in ct:
             if t[0] == "L":
                 agg = t[3] or self._in_multi_loop(event, container)
-                out.add(("L", t[1], t[2], agg, t[4] and not agg))
+                out.add(("L", t[1], t[2], agg, t[4]))
             elif t[0] == "LL":
                 # x.extend(D.values()) would nest lists; `x.update(*D.values())` flattens: treat as accumulated pairs
                 out.add(("LL", t[1], t[2], t[3]))
@@ -352,8 +352,12 @@ class Shapes:
     def _is_lookup(self, e: ast.expr) -> ast.expr | None:
         """The module-name argument when `e` is a layer lookup `<mapping>.get_layer_for_module_name(<name>)`."""
         e = single_value(self.view, e)
-        if isinstance(e, ast.Call) and isinstance(e.func, ast.Attribute) and e.func.attr == LOOKUP and len(e.args) + len(e.keywords) == 1:
-            return e.args[0] if e.args else e.keywords[0].value
+        if isinstance(e, ast.Call) and len(e.args) + len(e.keywords) == 1:
+            fn = e.func
+            if isinstance(fn, ast.Name):
+                fn = single_value(self.view, fn)  # layer_of = mapping.get_layer_for_module_name
+            if isinstance(fn, ast.Attribute) and fn.attr == LOOKUP:
+                return e.args[0] if e.args else e.keywords[0].value
         return None
 
     def same_layer_atom(self, e: ast.expr):
@@ -398,6 +402,10 @@ class Shapes:
             r = self.same_layer_atom(e)
             if r is not None:
                 return r
+            if isinstance(e, ast.Call) and not (isinstance(e.func, ast.Name) and e.func.id in ("any", "all", "bool", "len", "isinstance", "sum", "set", "list", "tuple", "sorted")):
+                r = self.pred_formula(e)
+                if r is not None:
+                    return r
             if isinstance(e, ast.Name) and isinstance(e.ctx, ast.Load):
                 asg = assignments_of(self.view, e.id)
                 if asg and len(asg) == 1 and e.id not in self.view.param_names and isinstance(asg[0][1], (ast.Compare, ast.BoolOp, ast.UnaryOp, ast.Call, ast.IfExp)):
@@ -408,6 +416,112 @@ class Shapes:
             return None
 
         return subst
+
+    # ------------------------------------------------------------------ predicates that were not inlined
+    def _resolve_callee(self, call: ast.Call) -> FuncInfo | None:
+        src = getattr(call, "_src", None)
+        ctx, orig = src if src is not None else (self.view, call)
+        callee = None
+        if isinstance(orig, ast.Call) and isinstance(orig.func, ast.Attribute) and isinstance(orig.func.value, ast.Name) and self.recv is not None and ctx.params and orig.func.value.id == ctx.params[0].arg and ctx.cls is not None:
+            callee = self.repo.lookup_method(self.recv, orig.func.attr)
+        if callee is None and isinstance(orig, ast.Call):
+            try:
+                cs, how = self.T.callees(ctx, orig, byname_fallback=False)
+            except Exception:  # noqa: BLE001
+                cs, how = [], ""
+            cs = [c for c in cs if not c.is_abstract]
+            if len(cs) == 1 and how == "repo":
+                callee = cs[0]
+        if callee is None or callee.is_abstract or isinstance(callee.node, ast.Lambda):
+            return None
+        if self.allow is not None and not self.allow(self.view, callee):
+            return None
+        return callee
+
+    def _func_of_ref(self, e: ast.expr) -> FuncInfo | None:
+        """Function designated by a bare reference (`self._crosses_layers`, `helper`)."""
+        src = getattr(e, "_src", None)
+        ctx, orig = src if src is not None else (self.view, e)
+        if isinstance(orig, ast.Attribute) and isinstance(orig.value, ast.Name) and self.recv is not None and ctx.params and orig.value.id == ctx.params[0].arg and ctx.cls is not None:
+            m = self.repo.lookup_method(self.recv, orig.attr)
+            if m is not None and not m.is_property:
+                return m
+        try:
+            t = self.T.expr(ctx, orig)
+        except Exception:  # noqa: BLE001
+            return None
+        from core.types import members
+
+        fs = [m[1] for m in members(t) if m[0] == "fn"]
+        return fs[0] if len(fs) == 1 and not isinstance(fs[0].node, ast.Lambda) else None
+
+    def _truth_of_function(self, callee: FuncInfo, arg_tags: list[set]) -> tuple[Formula, list[str]] | None:
+        """(formula of the truthiness of the result over SAME:<param> atoms, positional parameter names)."""
+        if self.depth > 3:
+            return None
+        params = callee.param_names
+        if callee.cls is not None and callee.outer is None and not callee.is_staticmethod and params:
+            params = params[1:]
+        key = ("truth", callee.fq)
+        if key not in self._summaries:
+            v = dview(self.repo, callee, self.recv, self.allow, tag="shape")
+            seeds = {p: set(t) for p, t in zip(params, arg_tags)}
+            sub = Shapes(self.repo, self.T, v, seeds, self.recv, self.allow, self.depth + 1)
+            g = sub.guard_subst()
+            parts = []
+            for n in all_nodes(v):
+                if isinstance(n, ast.Return):
+                    if n.value is None:
+                        continue
+                    parts.append(f_and([conds_formula(conds(v, n), g), to_formula(n.value, g)]))
+            self._summaries[key] = f_or(parts) if parts else None
+        f = self._summaries[key]
+        return (f, params) if f is not None else None
+
+    def pred_formula(self, call: ast.Call) -> Formula | None:
+        callee = self._resolve_callee(call)
+        if callee is None:
+            return None
+        got = self._truth_of_function(callee, [self.tags(a) for a in call.args])
+        if got is None:
+            return None
+        f, params = got
+        ren = {}
+        for p_, a in zip(params, call.args):
+            e = self._end_pair_id(a)
+            if e is not None:
+                ren[f"SAME:{p_}"] = f"SAME:{e}"
+        if not any(a.startswith("SAME:") for a in atoms_of(f)):
+            return None
+        return _rename_atoms(f, ren)
+
+    def _end_pair_id(self, a: ast.expr) -> str | None:
+        a = single_value(self.view, a)
+        if isinstance(a, ast.Name):
+            return a.id
+        if isinstance(a, (ast.Tuple, ast.List)) and len(a.elts) == 2 and all(isinstance(z, ast.Name) for z in a.elts):
+            return "(" + ", ".join(z.id for z in a.elts) + ")"
+        return None
+
+    def filter_cleanliness(self, fn: ast.expr) -> object:
+        """True when keeping the elements for which `fn` is truthy is the same-layer filter; None when a layer test is involved
+        that was not understood; False otherwise."""
+        if isinstance(fn, ast.Lambda) and fn.args.args:
+            pid = fn.args.args[0].arg
+            f = to_formula(fn.body, self.guard_subst())
+        else:
+            callee = self._func_of_ref(fn)
+            if callee is None:
+                return False
+            got = self._truth_of_function(callee, [{("P", "?", False, False, False)}])
+            if got is None or not got[1]:
+                return None
+            f, params = got
+            pid = params[0]
+        same = [a for a in atoms_of(f) if a.startswith("SAME:")]
+        if f"SAME:{pid}" in same and implies(f, f_not(atom(f"SAME:{pid}"))):
+            return True
+        return None if same else False
 
     def _filtered(self, event: ast.AST, elt: ast.expr, was) -> object:
         """True when the guard of the event implies that the two ends of the added pair lie in different layers."""
@@ -497,7 +611,7 @@ class Shapes:
                     c = True
                     for t in ends:
                         c = _meet(c, t[2])
-                    return {("P", ends[0][1], c, any(t[3] for t in ends))}
+                    return {("P", ends[0][1], c, any(t[3] for t in ends), all(t[4] for t in ends))}
                 kes = [t for t in flat if t[0] in ("KE", "K")]
                 if kes:
                     return {("K", kes[0][1])}
@@ -567,7 +681,16 @@ class Shapes:
             if n == "sum" and args:
                 return self._flatten(args[0])
             if n in ("filter",) and len(args) == 2:
-                return set(args[1])
+                c = self.filter_cleanliness(e.args[0])
+                out = set()
+                for t in args[1]:
+                    if t[0] == "L" and t[2] is not True and c is not False:
+                        out.add(("L", t[1], c, t[3], t[4]))
+                        if c is None:
+                            self.unknown_filters.append(e)
+                    else:
+                        out.add(t)
+                return out
             if n in ("map",) and len(args) >= 2:
                 return set()
             if n in ("zip", "enumerate"):
@@ -627,7 +750,7 @@ class Shapes:
         out = set()
         for t in tags:
             if t[0] == "LL":
-                out.add(("L", t[1], t[2], True, False))
+                out.add(("L", t[1], t[2], True, t[3]))
             elif t[0] == "D":
                 out.add(("KS", t[1]))
             else:
@@ -659,22 +782,8 @@ class Shapes:
     def _summary(self, call: ast.Call, args: list[set], kw: dict) -> set | None:
         if self.depth > 3:
             return None
-        src = getattr(call, "_src", None)
-        ctx, orig = src if src is not None else (self.view, call)
-        callee = None
-        if isinstance(orig, ast.Call) and isinstance(orig.func, ast.Attribute) and isinstance(orig.func.value, ast.Name) and self.recv is not None and ctx.params and orig.func.value.id == ctx.params[0].arg:
-            callee = self.repo.lookup_method(self.recv, orig.func.attr)
+        callee = self._resolve_callee(call)
         if callee is None:
-            try:
-                cs, how = self.T.callees(ctx, orig, byname_fallback=False)
-            except Exception:  # noqa: BLE001
-                cs, how = [], ""
-            cs = [c for c in cs if not c.is_abstract]
-            if len(cs) == 1 and how == "repo":
-                callee = cs[0]
-        if callee is None or callee.is_abstract or isinstance(callee.node, ast.Lambda):
-            return None
-        if self.allow is not None and not self.allow(self.view, callee):
             return None
         params = callee.param_names
         if callee.cls is not None and callee.outer is None and not callee.is_staticmethod and params:
@@ -710,7 +819,9 @@ class Shapes:
                     it_tags: set = set()
                     for g in a.generators:
                         it_tags |= self.tags(g.iter)
-                    var_tags = self.tags(a.elt)
+                    pj = self._pair_level(x, a, x.func.id)
+                    if pj is not None:
+                        return pj
                     # which emptiness does the element test decide?
                     inner = self._inner_polarity(a.elt)
                     data = [t for t in it_tags if t[0] in ("LL", "IT", "D", "DS", "L")]
@@ -735,6 +846,30 @@ class Shapes:
                         kind = "any" if x.func.id == "any" else "all"
                         return Judgement(x, kind, t[1], t[2], bool(t[3]), self._jformula(kind, t[1], t[2]))
                 return None
+            if isinstance(x, ast.Compare) and len(x.ops) == 1 and isinstance(x.left, ast.Call) and isinstance(x.left.func, ast.Name) and x.left.func.id == "sum" and x.left.args and isinstance(x.comparators[0], ast.Constant) and x.comparators[0].value in (0, 1):
+                # sum(len(v) for v in lists) > 0  ==  any(len(v) > 0 for v in lists)
+                g = x.left.args[0]
+                op, c0 = x.ops[0], x.comparators[0].value
+                positive = (isinstance(op, (ast.Gt, ast.NotEq)) and c0 == 0) or (isinstance(op, ast.GtE) and c0 == 1)
+                negative = (isinstance(op, (ast.Eq, ast.LtE)) and c0 == 0) or (isinstance(op, ast.Lt) and c0 == 1)
+                if isinstance(g, (ast.GeneratorExp, ast.ListComp)) and (positive or negative):
+                    elt = g.elt
+                    inner_any = None
+                    if isinstance(elt, ast.Call) and isinstance(elt.func, ast.Name) and elt.func.id == "len" and elt.args:
+                        fake = ast.Call(func=ast.Name(id="any", ctx=ast.Load()), args=[g], keywords=[])
+                        ls_ = [t for t in self.tags(elt.args[0]) if t[0] == "L"]
+                        if ls_:
+                            t = ls_[0]
+                            its = set()
+                            for gg in g.generators:
+                                its |= self.tags(gg.iter)
+                            data = [z for z in its if z[0] in ("LL", "IT", "D", "DS")]
+                            grp = bool(data[0][3]) if data and data[0][0] in ("LL", "IT", "D") else bool(data and data[0][0] == "DS") or bool(t[4])
+                            kind = "any" if positive else "none"
+                            if t[3]:
+                                grp = bool(t[4])
+                            return Judgement(x, kind, t[1], t[2], grp, self._jformula(kind, t[1], t[2]))
+                return None
             ts = self.tags(x)
             ls = [t for t in ts if t[0] == "L"]
             if ls:
@@ -743,7 +878,7 @@ class Shapes:
                     c = True
                     for z in ls:
                         c = _meet(c, z[2])
-                    return Judgement(x, "any", t[1], c, False, self._jformula("any", t[1], c))
+                    return Judgement(x, "any", t[1], c, all(bool(z[4]) for z in ls), self._jformula("any", t[1], c))
                 return Judgement(x, "one", t[1], t[2], bool(t[4]), atom(f"ONE:{t[1]}:{norm(x, 40)}"))
             return None
 
@@ -763,6 +898,8 @@ class Shapes:
                 cands += n.values
             elif isinstance(n, ast.Compare) and len(n.ops) == 1 and isinstance(n.ops[0], (ast.Eq, ast.NotEq)) and isinstance(n.comparators[0], (ast.List, ast.Set, ast.Tuple, ast.Call)) and _is_empty_literal(n.comparators[0]):
                 cands.append(n.left)
+            elif isinstance(n, ast.Compare) and len(n.ops) == 1 and isinstance(n.left, ast.Call) and isinstance(n.left.func, ast.Name) and n.left.func.id == "sum":
+                cands.append(n)
             elif isinstance(n, (ast.GeneratorExp, ast.ListComp, ast.SetComp)) and isinstance(parent(n), ast.Call) and isinstance(parent(n).func, ast.Name) and parent(n).func.id in ("any", "all"):
                 cands.append(n.elt)
             for c in cands:
@@ -777,6 +914,33 @@ class Shapes:
         for s in getattr(self, "sub_shapes", []):
             out += s.judgements()
         return out
+
+    def _pair_level(self, x: ast.Call, a, fn: str) -> Judgement | None:
+        """any(<test on one pair> for lists in D.values() for pair in lists): a decision on the flattened pairs."""
+        pgen = None
+        for g in a.generators:
+            if any(t[0] == "L" for t in self.tags(g.iter)):
+                pgen = g
+        if pgen is None or fn != "any":
+            return None
+        lt = [t for t in self.tags(pgen.iter) if t[0] == "L"][0]
+        src, clean, grp = lt[1], lt[2], bool(lt[4])
+        pid = self._end_pair_id(pgen.target) if isinstance(pgen.target, (ast.Name, ast.Tuple)) else None
+        conds_ = [c for g in a.generators for c in g.ifs]
+        f = f_and([to_formula(c, self.guard_subst()) for c in conds_] + [to_formula(a.elt, self.guard_subst())])
+        elt_is_pair = any(t[0] == "P" for t in self.tags(a.elt))
+        if isinstance(a.elt, ast.Constant) and a.elt.value and not conds_:
+            pass  # any(True for ...): the raw pairs
+        elif elt_is_pair and not conds_:
+            pass
+        else:
+            same = [z for z in atoms_of(f) if z.startswith("SAME:")]
+            if clean is not True:
+                if pid is not None and f"SAME:{pid}" in same and implies(f, f_not(atom(f"SAME:{pid}"))):
+                    clean = True
+                elif same or not (isinstance(a.elt, ast.Constant) or elt_is_pair):
+                    clean = None
+        return Judgement(x, "any", src, clean, grp, self._jformula("any", src, clean))
 
     def _elt_subjects(self, elt: ast.expr) -> list[Tag]:
         out = []
@@ -820,3 +984,13 @@ def _is_empty_literal(e: ast.expr) -> bool:
 
 def _inside(node: ast.AST, container: ast.AST) -> bool:
     return node is container or any(a is container for a in ancestors(node))
+
+
+def _rename_atoms(f: Formula, ren: dict[str, str]) -> Formula:
+    if f[0] == "atom":
+        return ("atom", ren.get(f[1], f[1]))
+    if f[0] == "const":
+        return f
+    if f[0] == "not":
+        return ("not", _rename_atoms(f[1], ren))
+    return (f[0], [_rename_atoms(g, ren) for g in f[1]])
